@@ -48,7 +48,7 @@ impl Model {
         }
     }
     pub fn remove(&mut self, id: u32) -> Option<ME> {
-        self.pos(id).map(|p| self.e.swap_remove(p))
+        self.pos(id).map(|p| self.e.remove(p)) // order-preserving: the model order must not depend on removal order
     }
     pub fn len(&self) -> usize {
         self.e.len()
@@ -210,6 +210,9 @@ impl<K: Elem, V: Elem> MapDrv<K, V> {
             Ok(obs) => {
                 self.tr.u64(op as u64);
                 self.tr.u64(obs);
+                if ctx.only.is_some() && ctx.xarg("trace").is_some() {
+                    println!("TR {} {} obs={} digest={:x}", self.steps, OP_NAMES[op], obs, self.tr.0);
+                }
             }
             Err(p) => {
                 if is_injected(&p) {
@@ -348,7 +351,15 @@ impl<K: Elem, V: Elem> MapDrv<K, V> {
         let id = self.pick_id(rng);
         oplog!(ctx, "contains_key({})", id);
         let (k, _) = self.mk_k(id);
+        let e0 = crate::fuse::count(crate::fuse::Class::Eq);
         let a = self.map.contains_key(&k);
+        // termination as a logical-step bound: one lookup compares at most once per bucket it can reach
+        let calls = crate::fuse::count(crate::fuse::Class::Eq) - e0;
+        let bound = 2 * (self.facts.buckets.max(1) as u64 + 16);
+        if calls > bound && self.validate_every == 1 {
+            crate::viol!("contains_key({}): one lookup made {} equality calls in a table of {} buckets", id, calls, self.facts.buckets);
+        }
+        ctx.max("max_eq_calls_one_lookup", calls);
         let b = self.map.contains_key(&KeyRef(id));
         self.presence(a, id, "contains_key");
         self.presence(b, id, "contains_key(KeyRef)");
@@ -746,7 +757,7 @@ impl<K: Elem, V: Elem> MapDrv<K, V> {
                 let e = self.map.entry(k);
                 occupied = matches!(e, Entry::Occupied(_));
                 e.key().check();
-                if e.key().id() != id {
+                if compare && e.key().id() != id {
                     crate::viol!("entry({}).key() is {:?}", id, e.key());
                 }
             }
@@ -1154,6 +1165,8 @@ impl<K: Elem, V: Elem> MapDrv<K, V> {
         let n = match rng.below(3) {
             0 => rng.below(8) as usize,
             1 => rng.below(64) as usize,
+            // (capacity-relative requests would make the transcript depend on the group width)
+            _ if self.order_free => (self.map.len() + rng.below(4) as usize).saturating_sub(2),
             _ => (self.map.capacity() + rng.below(4) as usize).saturating_sub(2),
         };
         let len_before = self.map.len();
@@ -1358,10 +1371,17 @@ impl<K: Elem, V: Elem> MapDrv<K, V> {
                     newvals.push(self.mk_v(rng));
                 }
                 let mut written = Vec::new();
+                let order_free = self.order_free;
                 for (k, v) in self.map.iter_mut() {
                     k.check();
                     v.check();
-                    if let Some((nv, vv, vg)) = newvals.pop() {
+                    if order_free {
+                        // the new value is a function of the key, not of the iteration order
+                        let vv = (k.id().wrapping_mul(31) ^ 0x5a5a) % V::ID_SPACE.min(1 << 20);
+                        let vg = if V::HAS_GEN { 4242 } else { 0 };
+                        *v = V::make(vv, vg);
+                        written.push((k.id(), vv, vg));
+                    } else if let Some((nv, vv, vg)) = newvals.pop() {
                         *v = nv;
                         written.push((k.id(), vv, vg));
                     }
@@ -1394,6 +1414,29 @@ impl<K: Elem, V: Elem> MapDrv<K, V> {
 
     fn op_get_many_mut(&mut self, ctx: &mut Ctx, rng: &mut Rng) -> u64 {
         if !self.lawful {
+            // broken Hash/Eq: results are unspecified, but the returned references must never alias
+            let a = self.pick_id(rng);
+            let b = self.pick_id(rng);
+            oplog!(ctx, "get_many_mut([{}, {}, {}]) under broken Hash/Eq", a, b, a);
+            let map = &mut self.map;
+            let r = catch_expected(|| {
+                let res = map.get_many_mut([&KeyRef(a), &KeyRef(b), &KeyRef(a)]);
+                let mut addrs = Vec::new();
+                for v in res.into_iter().flatten() {
+                    v.check();
+                    addrs.push(v as *mut V as usize);
+                }
+                addrs
+            });
+            if let Ok(addrs) = r {
+                if std::mem::size_of::<V>() != 0 {
+                    let mut s = addrs.clone();
+                    s.sort();
+                    s.dedup();
+                    crate::check!(s.len() == addrs.len(), "get_many_mut handed out two mutable references to the same value ({:x?}) under inconsistent Hash/Eq", addrs);
+                }
+                return 1;
+            }
             return 0;
         }
         // distinct ids only here (duplicates and unlawful closures are C15's business)
